@@ -351,6 +351,12 @@ func (p *Pattern) scanSet(src string, i int, unspec func(string)) (Set, int, str
 			break
 		}
 		if ch == '%' {
+			if k-1 > j && src[k-1] == '-' {
+				// "[a-%]": the reference reads '%]' as an escaped bracket and
+				// goes on looking for the end; a reader that takes "a-%" as a
+				// range is not wrong by the manual ("[a-%%] has no meaning")
+				unspec("range whose last end is an escape")
+			}
 			k += 2
 			continue
 		}
